@@ -26,6 +26,21 @@ def make_copy(m, base):
         if s.count(old) != 1:
             raise SystemExit("mutant %s: pattern occurs %d times in %s" % (m["id"], s.count(old), f))
         open(p, "w").write(s.replace(old, new))
+    if m.get("c_edits"):
+        # emulate "edit the .pyx and rebuild": edit the generated C and recompile the extension into the scratch copy
+        import sysconfig
+
+        import numpy as np
+
+        cpath = os.path.join(d, "toasty", "_libtoasty.c")
+        s = open(cpath, errors="replace").read()
+        for old, new in m["c_edits"]:
+            if s.count(old) != 1:
+                raise SystemExit("mutant %s: C pattern occurs %d times" % (m["id"], s.count(old)))
+            s = s.replace(old, new)
+        open(cpath, "w").write(s)
+        so = [f for f in os.listdir(os.path.join(d, "toasty")) if f.startswith("_libtoasty") and f.endswith(".so")][0]
+        subprocess.run(["clang-14", "-shared", "-fPIC", "-O1", "-w", "-I", sysconfig.get_paths()["include"], "-I", np.get_include(), cpath, "-o", os.path.join(d, "toasty", so)], check=True)
     return d
 
 
